@@ -31,12 +31,36 @@ pub fn plan(seed: u64, nf: usize, nc: usize) -> Plan {
         c.vals[2] = Val::bytes(svals[k % 5]);
         c.vals[4] = Val::Ip { v: vec![10, 0, 0, (k % 5) as u8] };
         c.vals[8] = Val::Arr { e: Ty::Int, v: vec![Val::int(ivals[k % 5]), Val::int(ivals[(k + 1) % 5])] };
+        // two contexts out of three hold the same value of j, but the named sets of their list matchers differ:
+        // list state belongs to the context, not to the compiled filter
+        c.vals[1] = Val::int(ivals[k % 2]);
+        c.lists[0] = MatcherSpec {
+            kind: "set".into(),
+            sets: vec![NamedSet { name: b"m".to_vec(), vals: if k % 3 == 0 { vec![Val::int(1), Val::int(2)] } else if k % 3 == 1 { vec![Val::int(100)] } else { vec![] } }],
+        };
+        c.lists[1] = MatcherSpec {
+            kind: "set".into(),
+            sets: vec![NamedSet { name: b"m".to_vec(), vals: if k % 2 == 0 { vec![Val::bytes(svals[k % 5])] } else { vec![Val::bytes(b"zz")] } }],
+        };
     }
     let w = World::new(specs.clone(), ctxs.clone());
     let id = |n: &str| Tok::Id { name: n.into() };
     let int = |x: i64| Tok::Int { v: limbs(x), txt: x.to_string() };
     let q = |b: &[u8]| Tok::Bytes { v: b.to_vec(), form: "q".into(), txt: format!("\"{}\"", String::from_utf8_lossy(b)) };
+    let lst = |n: &str| Tok::List { name: n.as_bytes().to_vec(), valid: true, txt: format!("${n}") };
+    // a+b : true for "ab", "xxabxx", "aab"; false for "b", ""
+    let re_ab = json!({"k": "cat", "a": {"k": "plus", "a": {"k": "lit", "c": 97}}, "b": {"k": "lit", "c": 98}});
+    let re_tok = regex_tok(&mut r, re_ab, "none");
+    let re_anch = regex_tok(&mut r, json!({"k": "cat", "a": {"k": "bol"}, "b": {"k": "cat", "a": {"k": "plus", "a": {"k": "lit", "c": 97}}, "b": {"k": "lit", "c": 98}}}), "none");
+    let wild = |p: &[u8]| Tok::Wild { v: p.to_vec(), form: "q".into(), txt: format!("\"{}\"", String::from_utf8_lossy(p)) };
     let fixed: Vec<Vec<Tok>> = vec![
+        vec![id("j"), Tok::In, lst("m")],
+        vec![id("s"), Tok::In, lst("m")],
+        vec![Tok::Quant { v: "any".into() }, Tok::Lp, id("ai"), Tok::Lb, Tok::Star, Tok::Rb, Tok::In, lst("m"), Tok::Rp],
+        vec![id("s"), Tok::Bop { v: "matches".into(), a: 0 }, re_tok],
+        vec![id("s"), Tok::Bop { v: "matches".into(), a: 1 }, re_anch],
+        vec![id("s"), Tok::Bop { v: "wildcard".into(), a: 0 }, wild(b"*AB*")],
+        vec![id("s"), Tok::Bop { v: "strict wildcard".into(), a: 0 }, wild(b"*ab")],
         vec![id("i"), Tok::In, Tok::Lbr, int(1), Tok::Irange { lo: limbs(5), hi: limbs(9), txt: "5..9".into() }, int(100), Tok::Rbr],
         vec![Tok::Quant { v: "any".into() }, Tok::Lp, id("ai"), Tok::Lb, Tok::Star, Tok::Rb, Tok::In, Tok::Lbr, int(2), int(7), Tok::Rbr, Tok::Rp],
         vec![id("j"), Tok::In, Tok::Lbr, Tok::Irange { lo: limbs(0), hi: limbs(4), txt: "0..4".into() }, Tok::Rbr, Tok::Lop { v: "xor".into(), a: 0 },
